@@ -53,6 +53,10 @@ func (pass *DisjunctionWithNullToOptional) processDisjunction(visitor *Visitor, 
 	// type | null
 	finalType := disjunction.Branches.NonNullTypes()[0]
 	finalType.Nullable = true
+	if finalType.Default == nil {
+		// the default declared on `type | null` is a default for `type?`
+		finalType.Default = def.Default
+	}
 	finalType.AddToPassesTrail(fmt.Sprintf("DisjunctionWithNullToOptional[%[1]s|null → %[1]s?]", ast.TypeName(finalType)))
 
 	// the type might itself contain `type | null` unions (ex: `[...(T | null)] | null`)
